@@ -12,17 +12,17 @@ import (
 // Spec expressions: Go syntax (parsed by go/parser), typed by SMT sort.
 
 type Env struct {
-	g        *Gen
-	vars     map[string]Val
-	cellVars map[string]*Cell // source-level names of mutable variables: the name denotes the content
-	lets     map[string]ast.Expr
-	cur      *State
-	old      *State
-	inOld    bool
-	bound    map[string]Val
+	g         *Gen
+	vars      map[string]Val
+	cellVars  map[string]*Cell // source-level names of mutable variables: the name denotes the content
+	lets      map[string]ast.Expr
+	cur       *State
+	old       *State
+	inOld     bool
+	bound     map[string]Val
 	loopEntry *State // state in which the loop under consideration was entered (for entry(...))
 	resolving map[string]bool
-	alias    map[string]string // contract identifier -> local of the code it is bound to (rename-tolerant binding, rename.go)
+	alias     map[string]string // contract identifier -> local of the code it is bound to (rename-tolerant binding, rename.go)
 }
 
 func (g *Gen) newEnv(cur, old *State) *Env {
